@@ -124,8 +124,107 @@ def _loop_positions(msk):
     return res
 
 
+def _split_top_commas(text):
+    msk = lex.mask(text)
+    parts, depth, last = [], 0, 0
+    for i, c in enumerate(msk):
+        if c in '([{':
+            depth += 1
+        elif c in ')]}':
+            depth -= 1
+        elif c == ',' and depth == 0:
+            parts.append(text[last:i])
+            last = i + 1
+    parts.append(text[last:])
+    return [p for p in parts if p.strip()]
+
+
+def rewrite_format(text, nth, log):
+    """D10: the nth `format!(..)` (only `{}` / `{name}` placeholders, no format specs) becomes
+    `{ let mut _f = String::new(); _f.push_str("lit"); _f.push_str(VDisp::vdisp(&(X)).as_str()); ..; _f }`.
+    This is the documented meaning of format! for Display placeholders; VDisp::vdisp is the trusted
+    model of `Display::fmt` for the few types used (prelude/vdisp.rs)."""
+    msk = lex.mask(text)
+    ms = list(re.finditer(r'\bformat!\s*\(', msk))
+    if len(ms) < nth:
+        raise ExtractError('fmt: format! #%d not found' % nth)
+    m = ms[nth - 1]
+    po = msk.index('(', m.start())
+    pc = lex.match_bracket(msk, po)
+    args = _split_top_commas(text[po + 1:pc])
+    if not args:
+        raise ExtractError('fmt: empty format!')
+    lit = args[0].strip()
+    mm = re.match(r'^"((?:[^"\\]|\\.)*)"$', lit, flags=re.S)
+    if not mm:
+        raise ExtractError('fmt: first argument is not a plain string literal')
+    fs = mm.group(1)
+    named, positional = {}, []
+    for a in args[1:]:
+        am = re.match(r'^\s*([A-Za-z_][A-Za-z0-9_]*)\s*=(?!=)\s*(.*)$', a, flags=re.S)
+        if am:
+            named[am.group(1)] = am.group(2).strip()
+        else:
+            positional.append(a.strip())
+    pieces = []
+    cur = ''
+    i = 0
+    nextpos = 0
+    while i < len(fs):
+        c = fs[i]
+        if c == '{':
+            if fs.startswith('{{', i):
+                cur += '{'
+                i += 2
+                continue
+            j = fs.index('}', i)
+            inner = fs[i + 1:j]
+            if ':' in inner:
+                raise ExtractError('fmt: format spec {%s} not supported by D10' % inner)
+            if cur:
+                pieces.append(('lit', cur))
+                cur = ''
+            if inner == '':
+                if nextpos >= len(positional):
+                    raise ExtractError('fmt: missing positional argument')
+                pieces.append(('arg', positional[nextpos]))
+                nextpos += 1
+            elif inner.isdigit():
+                pieces.append(('arg', positional[int(inner)]))
+            elif inner in named:
+                pieces.append(('arg', named[inner]))
+            else:
+                pieces.append(('arg', inner))   # implicit capture of a variable in scope
+            i = j + 1
+        elif c == '}':
+            if fs.startswith('}}', i):
+                cur += '}'
+                i += 2
+                continue
+            raise ExtractError('fmt: stray }')
+        else:
+            cur += c
+            i += 1
+    if cur:
+        pieces.append(('lit', cur))
+    out = '{ let mut _f = String::new(); '
+    for k, v in pieces:
+        if k == 'lit':
+            out += '_f.push_str("%s"); ' % v
+        else:
+            out += '_f.push_str(VDisp::vdisp(&(%s)).as_str()); ' % re.sub(r'\s+', ' ', v)
+    out += '_f }'
+    nl = text.count('\n', m.start(), pc + 1)
+    log.append(('D10', 'format!(%s ..) rewritten to explicit concatenation' % lit[:40], text.count('\n', 0, m.start())))
+    return text[:m.start()] + out + '\n' * nl + text[pc + 1:]
+
+
 def _apply_block(text, first_line, relpath, directives, tmpl_file, log, stub):
     """Return list of Line for the function text with insertions applied."""
+    # 0. D10: format!("..{a}..", a = X) => explicit concatenation of literal pieces and Display renderings
+    for d in directives:
+        if d['kind'] == 'fmt':
+            text = rewrite_format(text, d['nth'], log)
     # 1. substitutions (on the raw text, line-count preserving is not required but checked)
     for d in directives:
         if d['kind'] == 'subst':
@@ -269,32 +368,35 @@ def assemble(unit_name, repo=None):
     tmpl = os.path.join(VERIF, tmpl_rel)
     u = Unit(unit_name)
     u.template = tmpl_rel
-    src_lines = open(tmpl, encoding='utf-8').read().split('\n')
+    raw = []   # (text, origin) after textual include expansion
+
+    def expand(rel, kind, depth=0):
+        pth = os.path.join(VERIF, rel)
+        for k, l in enumerate(open(pth, encoding='utf-8').read().split('\n')):
+            mi = re.match(r'\s*//@include\s+(\S+)', l)
+            if mi:
+                if depth > 5:
+                    raise ExtractError('include depth')
+                expand(mi.group(1), 'prelude', depth + 1)
+            else:
+                raw.append((l, (kind, rel, k + 1)))
+
+    expand(tmpl_rel, 'spec')
+    src_lines = [r[0] for r in raw]
+    origins = [r[1] for r in raw]
     i = 0
     n = len(src_lines)
-
-    def include(rel, depth=0):
-        p = os.path.join(VERIF, rel)
-        for k, l in enumerate(open(p, encoding='utf-8').read().split('\n')):
-            mi = re.match(r'\s*//@include\s+(\S+)', l)
-            if mi and depth < 4:
-                include(mi.group(1), depth + 1)
-            else:
-                u.lines.append(Line(l, ('prelude', rel, k + 1), _tags(l)))
 
     while i < n:
         l = src_lines[i]
         m = re.match(r'\s*//@(\w+)\s*(.*)$', l)
         if not m:
-            u.lines.append(Line(l, ('spec', tmpl_rel, i + 1), _tags(l)))
+            u.lines.append(Line(l, origins[i], _tags(l)))
             i += 1
             continue
         cmd, rest = m.group(1), m.group(2).strip()
         if cmd == 'props':
             u.props = [p.strip() for p in rest.split(',') if p.strip()]
-            i += 1
-        elif cmd == 'include':
-            include(rest)
             i += 1
         elif cmd == 'take':
             pos, kv = _kv(_split_args(rest))
@@ -335,6 +437,9 @@ def assemble(unit_name, repo=None):
                         rx, tail = _parse_regex_directive(r2, c2)
                         p2, kv2 = _kv(tail.split())
                         cur = {'kind': c2, 'regex': rx, 'nth': int(kv2.get('nth', 1)), 'lines': []}
+                    elif c2 == 'fmt':
+                        p2, kv2 = _kv(r2.split())
+                        cur = {'kind': 'fmt', 'nth': int(p2[0]) if p2 else 1, 'lines': []}
                     elif c2 == 'subst':
                         mm = re.match(r'(D\d\w*)\s+/((?:[^/\\]|\\.)*)/\s*=>\s*(.*?)(?:\s+count=(\d+))?$', r2)
                         if not mm:
@@ -349,7 +454,7 @@ def assemble(unit_name, repo=None):
                         if l2.strip():
                             raise ExtractError('text before first directive in extract block (line %d)' % (i + 1))
                     else:
-                        cur['lines'].append(Line(l2, ('spec', tmpl_rel, i + 1), _tags(l2)))
+                        cur['lines'].append(Line(l2, origins[i], _tags(l2)))
                 i += 1
             log = []
             text, first = extract(repo, relpath, selector, log)
